@@ -2,7 +2,7 @@
 from ..rules import branching, engine, model, optimize, search, shaving, propagators, kinds, dispatch
 
 EXPLANATION = (
-    'Static analysis of the enumeration machinery: typestate over the generators solve / solve_and_queue (one search per iteration; a solution is delivered exactly once and followed by exactly one backtrack; the loop ends iff no solution or no alternative), solve_one (vector only under PROBLEM_BOUND, None only after a failed backtrack on an inconsistent state, heuristic answers handed over unmodified), partition algebra and event masks of all 5 registered value heuristics from the symbolic pre-state [lo,hi], and the push/pop/init oracle of the choice-point stack. Decides these shapes for all problems; not the equality of multisets across strategies. Also run here, because \'exactly the satisfying assignments, with every consistency algorithm\' needs them: the engine\'s soundness clauses (queue drain, write-back events and intersection, wake-up primitive, queue writers, wake-up table join, solution = shared + offset), the shaving rules (probe value, refutation test, restore arithmetic, re-propagation, progress) and \'a variable heuristic answers an element of decision_domains\'; min-cost scans the whole domain and its partition is decided under the contract that an admissible value exists. One filtering clause is decided here (R-SOLE-CANDIDATE): max_eq / min_eq count the variables that can still be the aggregate against the very bound of y they then force on the sole candidate (fix fd3e7f8: on the pinned tree the scan compared with the other bound and solutions were removed). Round 3: write-back completeness; index kinds; the shaving scan\'s cursor cannot move back. Round 4: the default decision set is the range over all shared domains (is_solved scans them all); the parts of split move with a translation of the domain.'
+    'Static analysis of the enumeration machinery: typestate over the generators solve / solve_and_queue (one search per iteration; a solution is delivered exactly once and followed by exactly one backtrack; the loop ends iff no solution or no alternative), solve_one (vector only under PROBLEM_BOUND, None only after a failed backtrack on an inconsistent state, heuristic answers handed over unmodified), partition algebra and event masks of all 5 registered value heuristics from the symbolic pre-state [lo,hi], and the push/pop/init oracle of the choice-point stack. Decides these shapes for all problems; not the equality of multisets across strategies. Also run here, because \'exactly the satisfying assignments, with every consistency algorithm\' needs them: the engine\'s soundness clauses (queue drain, write-back events and intersection, wake-up primitive, queue writers, wake-up table join, solution = shared + offset), the shaving rules (probe value, refutation test, restore arithmetic, re-propagation, progress) and \'a variable heuristic answers an element of decision_domains\'; min-cost scans the whole domain and its partition is decided under the contract that an admissible value exists. One filtering clause is decided here (R-SOLE-CANDIDATE): max_eq / min_eq count the variables that can still be the aggregate against the very bound of y they then force on the sole candidate (fix fd3e7f8: on the pinned tree the scan compared with the other bound and solutions were removed). Round 3: write-back completeness; index kinds; the shaving scan\'s cursor cannot move back. Round 4: the default decision set is the range over all shared domains (is_solved scans them all); the parts of split move with a translation of the domain. Round 6: R-AFFINE-BOUND (bounds derived by division), R-SOLE-CANDIDATE candidate-test-bypassed, R-POSTED-KEPT, the own-call clause of the wake-up table, the bound selector of shaving stays MIN / MAX, no division by a possibly-zero quantity behind a function pointer.'
 )
 
 
